@@ -306,6 +306,10 @@ func avValue(form, name, nkind, emb string) (string, string, error) {
 		e = avW("'x'") + "[format('{0}', toJSON(" + c + "))].y"
 	case "direct":
 		e = c
+	case "ternary":
+		e = avW(c) + " && " + avW("'a'") + " || " + avW("'b'")
+	case "nand":
+		e = "!(" + avW(c) + " && " + avW("'a'") + ") && " + avW("'b'")
 	default:
 		return "", "", fmt.Errorf("unknown embedding %q", emb)
 	}
